@@ -17,14 +17,22 @@
     vs a cache-less fresh conversion, transform_ast invocations per (code
     class, options) <= 1 per epoch; deterministic overlap probes; a sweep with
     one forced context switch before every line of transform_function (settrace);
-    converted_call / to_graph histories incl. the allowlist cache
+    converted_call / to_graph histories incl. the allowlist cache, over a pool of
+    RELATED callables (decorator wrappers carrying __wrapped__ -- malt's own
+    convert / do_not_convert and a functools.wraps decorator --, one function
+    as bound method of two instances, two function objects on one code
+    object): every decision of converted_call, nested requests included, is
+    logged and judged, and replayed on the allowlist machine with the
+    GENERATED key function (UnboundInstanceCache._get_key)
  5. if the discipline / the tie broke: the machine is searched (BFS over a
     Python mirror, result re-validated in Coq) for a violating 2-3 thread
     schedule, which is forced on the real code -> concrete replay.
 """
 import ast
 import collections
+import functools
 import gc
+import inspect
 import itertools
 import json
 import linecache
@@ -979,7 +987,10 @@ def check(run):
     run.rule = ('container: random has/set/get/collect sequences on CodeObjectCache (3 code classes x 2 loads x 3 subkeys); '
                 'machine: random valid schedules of 1-4 threads x 1-3 requests over 2-3 code classes x 2 options x 3 envs with '
                 'injected failures and collections, forced on the real PyToPy; oracle: free-running 1..32 threads with random '
-                'barriers / switch intervals on the test transpiler and on api.PyToPy; distinct non-trivial = distinct event traces')
+                'barriers / switch intervals on the test transpiler and on api.PyToPy; allowlist cache: forced request histories over 8 related '
+                'callables (plain functions, do_not_convert / convert / functools.wraps wrappers of them, bound methods, a twin on the '
+                'same code object), all ordered related pairs + random ones, decision log incl. nested requests; '
+                'distinct non-trivial = distinct event traces / decision logs')
     tmp = vlib.ensure_dir(os.path.join(vlib.BUILD, 'tmp', str(os.getpid())))
     os.environ['TMPDIR'] = tmp
     import tempfile
@@ -1141,6 +1152,8 @@ def _check(run, tmp):
         'weakref callbacks remove a bucket only when its key code object is dead; code objects compare by value',
         'instantiate() is a function of (factory, globals, closure, defaults, kwdefaults) -- exercised by the oracle, not proved',
         'ConversionOptions eq/hash agree with the attribute tuple (C20)',
+        'allowlist machine: the context-independent reasons to run a callable as-is (artifact, unsupported, allowlisted module, '
+        'no source) are properties of the function object -- for a bound method, of its __func__, not of the instance it is bound to',
     ]
 
 
@@ -1545,7 +1558,33 @@ def outer(x):
     inside = apply_quietly(callback, x)
     after = leaf(x)
     return (inside, after)
+class Holder(object):
+    def m(self, x):
+        return (RUNS('m'), x + 1)
+def deco(fn):
+    @WRAPS(fn)
+    def w(x):
+        return fn(x)
+    return w
 '''
+
+# The callables a history asks converted_call about: (description, base function whose body runs, kind).
+# Indices 0/1 are the two plain functions; the others are RELATED to them the ways function objects are related in
+# practice: decorator wrappers carrying __wrapped__ (malt's own do_not_convert / convert, a user functools.wraps
+# decorator), one function handed over as bound method of two instances, a second function object on the same
+# code object.  kind 'artifact' = has a context-independent reason to run as-is under every option set.
+AL_ENTITIES = [
+    ('f0', 'f0', 'plain'),
+    ('f1', 'f1', 'plain'),
+    ('do_not_convert(f0)', 'f0', 'artifact'),
+    ('convert(recursive=True)(f1)', 'f1', 'artifact'),
+    ('deco(f1)  [user decorator built with functools.wraps]', 'f1', 'plain'),
+    ('Holder().m  [bound method, instance a]', 'm', 'plain'),
+    ('Holder().m  [bound method, instance b]', 'm', 'plain'),
+    ('autograph_artifact(types.FunctionType(f0.__code__, ...))  [second function object on the code object of f0]', 'f0',
+     'artifact'),
+]
+AL_GROUPS = [[0, 2, 7], [1, 3, 4], [5, 6]]
 
 
 def allowlist_histories(run, rnd, tmp, thorough, tie_ok, only_hist=None):
@@ -1554,7 +1593,18 @@ def allowlist_histories(run, rnd, tmp, thorough, tie_ok, only_hist=None):
     same function object and options, 1..N threads, in a forced order (each
     request runs in its own thread's context) and free-running.  Every enabled
     request must run CONVERTED code; observed outcomes are also compared with
-    the allowlist machine (evaluated in Coq)."""
+    the allowlist machine (evaluated in Coq).
+
+    The callables are AL_ENTITIES: the plain functions and callables related
+    to them (wrappers carrying __wrapped__, bound methods, a second function
+    object on the same code object); every ordered pair of related callables
+    is requested in both orders.  What is judged is the log of ALL decisions
+    of converted_call (hooks on _convert_actual / _call_unconverted), i.e.
+    also the nested requests issued by wrappers and by converted code: an
+    enabled request for a (function object, options) pair without a
+    context-independent reason to run as-is must be converted whatever was
+    requested before for OTHER function objects.  The same log is the input
+    of the machine with the generated key function (ecase / echeck)."""
     from malt.core import ag_ctx, converter
     from malt.impl import api
     failures = []
@@ -1572,15 +1622,22 @@ def allowlist_histories(run, rnd, tmp, thorough, tie_ok, only_hist=None):
         return False
 
     def load():
-        ns = {'__name__': 'c10_allow', 'RUNS': RUNS, 'DNC': api.do_not_convert}
+        ns = {'__name__': 'c10_allow', 'RUNS': RUNS, 'DNC': api.do_not_convert, 'WRAPS': functools.wraps}
         exec(compile(AL_SRC, fname, 'exec'), ns)
         return ns
+
+    def entities(ns):
+        f0, f1 = ns['f0'], ns['f1']
+        a, b = ns['Holder'](), ns['Holder']()
+        twin = types.FunctionType(f0.__code__, f0.__globals__, 'f0', f0.__defaults__, f0.__closure__)
+        return [f0, f1, api.do_not_convert(f0), api.convert(recursive=True)(f1), ns['deco'](f1), a.m, b.m,
+                api.autograph_artifact(twin)]
     OPTS = [converter.ConversionOptions(recursive=True, user_requested=True, optional_features=None),
             converter.ConversionOptions(recursive=False, user_requested=False, internal_convert_user_code=False,
                                         optional_features=None)]       # the second one: context-independent "run as-is"
     OPT_TXT = ['ConversionOptions(recursive=True, user_requested=True, optional_features=None)',
                'ConversionOptions(recursive=False, user_requested=False, internal_convert_user_code=False, optional_features=None)']
-    want_val = {0: lambda x: x + 1, 1: lambda x: x * 2}
+    want_val = {'f0': lambda x: x + 1, 'f1': lambda x: x * 2, 'm': lambda x: x + 1}
 
     def request(fn, opt, disabled, x):
         status = ag_ctx.Status.DISABLED if disabled else ag_ctx.Status.UNSPECIFIED
@@ -1588,81 +1645,259 @@ def allowlist_histories(run, rnd, tmp, thorough, tie_ok, only_hist=None):
             return api.converted_call(fn, (x,), None, options=OPTS[opt])
 
     def describe(hist):
-        return ['thread %d: with ControlStatusCtx(%s): converted_call(f%d, (3,), None, options=%s)' % (
-            t, 'DISABLED' if d else 'UNSPECIFIED', fi, OPT_TXT[o]) for (t, fi, o, d) in hist]
+        return ['thread %d: with ControlStatusCtx(%s): converted_call(%s, (3,), None, options=%s)' % (
+            t, 'DISABLED' if d else 'UNSPECIFIED', AL_ENTITIES[fi][0], OPT_TXT[o]) for (t, fi, o, d) in hist]
+
+    class Registry(object):
+        """The function objects / option values the requests of one history
+        are about (requests issued by the harness AND the nested ones issued by
+        the code they run), numbered for the machine."""
+
+        def __init__(self, ents):
+            self.objs = []        # function objects, by identity
+            self.kinds = []
+            self.names = []
+            self.opts = list(OPTS)
+            for e, (name, _, kind) in zip(ents, AL_ENTITIES):
+                self.fn_id(e, kind, name.split('  [')[0])
+            self.fn_id(RUNS, 'artifact', 'RUNS  [do_not_convert helper called by the bodies]')
+
+        def fn_id(self, f, kind=None, name=None):
+            base = f.__func__ if inspect.ismethod(f) else f
+            for i, o in enumerate(self.objs):
+                if o is base:
+                    return i
+            self.objs.append(base)
+            self.kinds.append(kind)          # None: a callable the harness did not create
+            self.names.append(name or getattr(base, '__qualname__', type(base).__name__))
+            return len(self.objs) - 1
+
+        def opt_id(self, o):
+            for i, q in enumerate(self.opts):
+                if q == o:
+                    return i
+            self.opts.append(o)
+            return len(self.opts) - 1
+
+        def static(self, fn, o):
+            return self.kinds[fn] == 'artifact' or not self.opts[o].internal_convert_user_code
+
+        def table(self):
+            """(id, __wrapped__ id or None, code class) per function object"""
+            codes = []
+            rows = []
+            i = 0
+            while i < len(self.objs):          # fn_id below may append the wrapped functions
+                f = self.objs[i]
+                w = getattr(f, '__wrapped__', None)
+                wid = self.fn_id(w, 'plain', 'the function wrapped by ' + self.names[i]) if inspect.isfunction(w) else None
+                c = getattr(f, '__code__', None)
+                for ci, q in enumerate(codes):
+                    if q is c:
+                        break
+                else:
+                    codes.append(c)
+                    ci = len(codes) - 1
+                rows.append((i, wid, ci))
+                i += 1
+            return rows
+
+        def related(self, a, b):
+            fa, fb = self.objs[a], self.objs[b]
+            if getattr(fa, '__wrapped__', None) is fb:
+                return 'a wrapper of it (wrapper.__wrapped__ is the function)'
+            if getattr(fb, '__wrapped__', None) is fa:
+                return 'the function it wraps (its __wrapped__)'
+            if getattr(fa, '__code__', 0) is getattr(fb, '__code__', 1):
+                return 'another function object with the same code object'
+            return None
 
     def run_forced(hist):
-        """each request is executed by its own thread, one after the other"""
+        """each request is executed by its own thread, one after the other;
+        every decision of api.converted_call (also for the nested requests made
+        by the code a request runs) is logged: _convert_actual = converts,
+        _call_unconverted = runs as-is"""
         ns = load()
-        fns = [ns['f0'], ns['f1']]
+        ents = entities(ns)
+        reg = Registry(ents)
         tids = sorted(set(h[0] for h in hist))
         qs = dict((t, queue.Queue()) for t in tids)
         done = queue.Queue()
+        tid_of = {}
+        log = []
+        o_unconv, o_conv, o_fall = api._call_unconverted, api._convert_actual, api._fall_back_unconverted
+
+        failed = {}
+
+        def entry(f, options, conv):
+            t = tid_of.get(threading.get_ident())
+            if t is not None:
+                e = {'tid': t, 'fn': reg.fn_id(f), 'bound': bool(inspect.ismethod(f)), 'opt': reg.opt_id(options),
+                     'disabled': ag_ctx.control_status_ctx().status == ag_ctx.Status.DISABLED, 'conv': conv,
+                     'obj': None}
+                e['obj'] = reg.names[e['fn']] + (' (as bound method)' if e['bound'] else '')
+                if not conv and t in failed:
+                    e['failed'] = failed.pop(t)
+                log.append(e)
+
+        def h_unconv(f, args, kwargs, options, update_cache=True):
+            entry(f, options, False)
+            return o_unconv(f, args, kwargs, options, update_cache)
+
+        def h_conv(entity, program_ctx):
+            entry(entity, program_ctx.options, True)
+            return o_conv(entity, program_ctx)
+
+        def h_fall(f, args, kwargs, options, exc):
+            t = tid_of.get(threading.get_ident())
+            for i in range(len(log) - 1, -1, -1):      # the conversion attempt of this request failed: it runs as-is
+                if log[i]['tid'] == t:
+                    if log[i]['conv']:
+                        log[i]['drop'] = True
+                    break
+            if t is not None:
+                failed[t] = '%s: %s' % (type(exc).__name__, str(exc)[:160])
+            return o_fall(f, args, kwargs, options, exc)
 
         def worker(t):
+            tid_of[threading.get_ident()] = t
             while True:
                 it = qs[t].get()
                 if it is None:
                     return
                 fi, o, d = it
                 try:
-                    done.put(request(fns[fi], o, d, 3))
+                    done.put(request(ents[fi], o, d, 3))
                 except Exception as ex:   # noqa
                     done.put('ERR %s: %s' % (type(ex).__name__, str(ex)[:200]))
-        ths = [threading.Thread(target=worker, args=(t,), daemon=True) for t in tids]
-        for th in ths:
-            th.start()
-        obs = []
-        for (t, fi, o, d) in hist:
-            qs[t].put((fi, o, d))
-            obs.append(done.get(timeout=60))
-        for t in tids:
-            qs[t].put(None)
-        for th in ths:
-            th.join(10)
-        return obs
+        api._call_unconverted, api._convert_actual, api._fall_back_unconverted = h_unconv, h_conv, h_fall
+        try:
+            ths = [threading.Thread(target=worker, args=(t,), daemon=True) for t in tids]
+            for th in ths:
+                th.start()
+            obs = []
+            spans = []
+            for (t, fi, o, d) in hist:
+                n0 = len(log)
+                qs[t].put((fi, o, d))
+                obs.append(done.get(timeout=60))
+                spans.append((n0, len(log)))
+            for t in tids:
+                qs[t].put(None)
+            for th in ths:
+                th.join(10)
+        finally:
+            api._call_unconverted, api._convert_actual, api._fall_back_unconverted = o_unconv, o_conv, o_fall
+        log = [e for e in log if not e.get('drop')]
+        return obs, {'log': log, 'spans': spans, 'reg': reg}
 
-    def judge(hist, obs, mode):
+    def show(e):
+        return 'thread %d, %s context: converted_call(%s, options #%d) -> %s' % (
+            e['tid'], 'DISABLED' if e['disabled'] else 'enabled', e['obj'], e['opt'],
+            'converted' if e['conv'] else 'run as-is' + (' (conversion failed: %s)' % e['failed'] if e.get('failed') else ''))
+
+    def judge(hist, obs, mode, trace=None):
         for idx, ((t, fi, o, d), r) in enumerate(zip(hist, obs)):
             if isinstance(r, str):
                 return ('a converted_call request died of ' + r[4:].split(':')[0], idx, r)
             conv, val = r
-            if val != want_val[fi](3):
+            _, base, kind = AL_ENTITIES[fi]
+            if val != want_val[base](3):
                 return ('converted_call changes the result', idx, repr(r))
-            if not d and o == 0 and not conv:
+            if kind != 'plain':
+                continue
+            plain_fn = fi in (0, 1, 5, 6)        # the callable IS the function whose body reports RUNS
+            if not d and o == 0 and not conv and plain_fn and trace is None:
                 return ('an enabled request runs the unconverted function because of an earlier request from a '
                         'DISABLED context (allowlist cache)', idx, repr(r))
             if d and conv and mode == 'forced':
                 return ('a request made with AutoGraph disabled in context runs converted code', idx, repr(r))
+        if trace is None:
+            return None
+        # the decisions themselves, nested requests included: the statement of enabled_entity_requests_converted
+        reg, log = trace['reg'], trace['log']
+        for n, e in enumerate(log):
+            idx = [i for i, (a, b) in enumerate(trace['spans']) if a <= n < b]
+            idx = idx[0] if idx else len(hist) - 1
+            if reg.kinds[e['fn']] is None:
+                return ('a converted_call request is about a callable the history did not create', idx, show(e))
+            st = reg.static(e['fn'], e['opt'])
+            if not e['disabled'] and not st and not e['conv']:
+                earlier = [q for q in log[:n] if q['opt'] == e['opt']]
+                same = [q for q in earlier if q['fn'] == e['fn'] and q['disabled']]
+                other = [(q, reg.related(q['fn'], e['fn'])) for q in earlier if q['fn'] != e['fn']]
+                other = [(q, rel) for q, rel in other if rel]
+                if e.get('failed'):
+                    what = 'a request that must be converted runs as-is because its conversion failed'
+                elif same:
+                    what = ('an enabled request runs the unconverted function because of an earlier request from a '
+                            'DISABLED context (allowlist cache)')
+                elif other:
+                    what = ('an enabled request for a function runs it unconverted because of an earlier request, under the same '
+                            'options, for ANOTHER function object -- %s: the allowlist cache confuses the two' % other[-1][1])
+                else:
+                    what = 'an enabled request with no context-independent reason to run as-is runs the unconverted function'
+                return (what, idx, show(e) + (' ; earlier: ' + show(other[-1][0]) if other and not same else ''))
+            if e['disabled'] and e['conv'] and mode == 'forced':
+                return ('a request made with AutoGraph disabled in context runs converted code', idx, show(e))
+        # what ran agrees with what was decided (two independent observations)
+        for idx, ((t, fi, o, d), r) in enumerate(zip(hist, obs)):
+            a, b = trace['spans'][idx]
+            if fi in (0, 1, 5, 6) and b > a and log[a:b] and bool(log[a]['conv']) != bool(r[0]):
+                return ('converted_call decides one thing and runs another', idx, '%s ; the body reports ran_converted=%s' % (
+                    show(log[a]), r[0]))
         return None
     if only_hist is not None:
-        obs = run_forced(only_hist)
-        return judge(only_hist, obs, 'forced'), [repr(o) for o in obs]
+        obs, trace = run_forced(only_hist)
+        bad = judge(only_hist, obs, 'forced', trace)
+        return bad, [repr(o) for o in obs] + ['decisions: ' + '; '.join(show(e) for e in trace['log'])]
     nh = 60 if thorough else 16
-    cases = []
-    for h in range(nh):
+    hists = [[(0, 0, 0, True), (1, 0, 0, False)],          # disabled first, then enabled, other thread
+             [(0, 0, 0, False), (0, 0, 0, True), (0, 0, 0, False)]]
+    # every ordered pair of RELATED callables (wrapper / wrapped, two bound methods of one function, two function
+    # objects on one code object), same options, both requests enabled, different threads
+    for grp in AL_GROUPS:
+        for a in grp:
+            for b in grp:
+                if a != b:
+                    hists.append([(0, a, 0, False), (1, b, 0, False)])
+                    if thorough:
+                        hists.append([(0, a, 1, False), (0, b, 0, False), (1, a, 0, False)])
+                        hists.append([(0, a, 0, True), (1, b, 0, False), (1, a, 0, False)])
+    for h in range(2, nh):
         nthreads = rnd.randint(1, 4)
         n = rnd.randint(2, 7)
-        hist = [(rnd.randrange(nthreads), rnd.randrange(2), 0 if rnd.random() < 0.8 else 1, rnd.random() < 0.45)
-                for _ in range(n)]
-        if h == 0:
-            hist = [(0, 0, 0, True), (1, 0, 0, False)]          # disabled first, then enabled, other thread
-        if h == 1:
-            hist = [(0, 0, 0, False), (0, 0, 0, True), (0, 0, 0, False)]
-        obs = run_forced(hist)
+        grp = AL_GROUPS[rnd.randrange(len(AL_GROUPS))] if h % 2 else [0, 1]
+
+        def pick():
+            return rnd.choice(grp) if rnd.random() < 0.8 else rnd.randrange(len(AL_ENTITIES))
+        hists.append([(rnd.randrange(nthreads), pick(), 0 if rnd.random() < 0.8 else 1, rnd.random() < 0.45)
+                      for _ in range(n)])
+    cases = []
+    for h, hist in enumerate(hists):
+        obs, trace = run_forced(hist)
         run.count(len(hist))
-        bad = judge(hist, obs, 'forced')
+        run.nontriv(('allowlist', tuple((e['fn'], e['bound'], e['opt'], e['disabled'], e['conv']) for e in trace['log'])))
+        bad = judge(hist, obs, 'forced', trace)
         if bad:
             failures.append((bad[0], {'what': bad[0], 'kind': 'allowlist-history', 'history': describe(hist),
                                       'history_raw': [list(x) for x in hist], 'failing_request_index': bad[1],
-                                      'observed(ran_converted, value)': bad[2],
-                                      'all_observed': [repr(o) for o in obs],
-                                      'functions': 'f0 / f1 of AL_SRC (tools/props/c10.py), fresh function objects'}, None))
+                                      'observed': bad[2],
+                                      'all_observed(ran_converted, value)': [repr(o) for o in obs],
+                                      'all_decisions_of_converted_call': [show(e) for e in trace['log']],
+                                      'callables': 'AL_ENTITIES over f0 / f1 / Holder.m of AL_SRC (tools/props/c10.py), fresh '
+                                                   'function objects per history'}, None))
             break
-        if all(not isinstance(r, str) for r in obs):
-            cases.append('(%d, [(0, 1); (1, 1)], [%s], [%s])' % (
-                h, '; '.join('(%d, %d, %d, %s)' % (t, fi, o, vlib.coq_bool(d)) for (t, fi, o, d) in hist),
-                '; '.join(vlib.coq_bool(r[0]) for r in obs)))
+        if all(not isinstance(r, str) for r in obs) and not any(e.get('failed') for e in trace['log']):
+            reg, log = trace['reg'], trace['log']
+            tbl = reg.table()
+            st = [(f, o) for f in range(len(reg.objs)) for o in range(len(reg.opts)) if reg.static(f, o)]
+            cases.append('(%d, [%s], [%s], [%s], [%s])' % (
+                h, '; '.join('(%d, %s, %d)' % (i, 'None' if w is None else 'Some %d' % w, c) for (i, w, c) in tbl),
+                '; '.join('(%d, %d)' % k for k in st),
+                '; '.join('(%d, %d, %s, %d, %s)' % (e['tid'], e['fn'], vlib.coq_bool(e['bound']), e['opt'],
+                                                     vlib.coq_bool(e['disabled'])) for e in log),
+                '; '.join(vlib.coq_bool(bool(e['conv'])) for e in log)))
     # the route through a do_not_convert helper (callback invoked with AutoGraph disabled, then a normal call)
     try:
         ns = load()
@@ -1723,8 +1958,8 @@ def allowlist_histories(run, rnd, tmp, thorough, tie_ok, only_hist=None):
     if tie_ok and cases and not failures:
         body = ['From Coq Require Import List Arith Bool.', 'Import ListNotations.',
                 'Require Import MV.Cache.Machine MV.Cache.KeySrc MV.Cache.Allowlist MV.Generated.C10_gen MV.Cache.AllowlistCheck.',
-                'Definition cases : list acase := [', ';\n'.join(cases), '].',
-                'Eval vm_compute in (afailing allowlist_exits cases).']
+                'Definition cases : list ecase := [', ';\n'.join(cases), '].',
+                'Eval vm_compute in (efailing allowlist_key_chain allowlist_exits cases).']
         rc, out = vlib.coq_eval('C10', 'allowlist', '\n'.join(body), timeout=300)
         bad = vlib.parse_coq_list_of_nat(out) if rc == 0 else None
         if bad is None:
